@@ -1,5 +1,6 @@
 import Lean.Data.Json
 import SpoxModel.Model.BuildAlg
+import SpoxModel.Model.Bridge
 /-! Line-protocol handler for C04: run the `Builder` model on an abstract program and report
     `graph_topo`, `arguments_of`, `scope_of`, `scope_own`, the flattened nested emission, the
     structural-check verdict and the error class. Vertices: node `n` ↦ `n`, source of graph `g` ↦ `-1-g`. -/
@@ -56,6 +57,12 @@ def handle (req : Json) : Json :=
         ("scope_own", Json.arr (b.graphTopo.map (fun g =>
             Json.arr #[toJson g, Json.arr ((b.scopeOwn g).map vJ).toArray])).toArray),
         ("trace", Json.arr (tr.map evJ).toArray),
-        ("struct_ok", structOk p tr [])]
+        ("struct_ok", structOk p tr []),
+        -- the bridge to the shared program model (C01): the emission as a `Prog.EGraph`
+        ("bridge_valid", let q := Bridge.toProg p b.argsOf
+                         Prog.validG q.nodes (Bridge.toEGraph p b) q.main []),
+        ("leak_free", Bridge.leakFreeB p b),
+        ("bridge_wf", Prog.wfCheck (Bridge.toProg p b.argsOf).nodes),
+        ("bridge_same_emission", decide (Bridge.flatG (Bridge.toEGraph p b) = Bridge.flatTrace tr))]
 
 end Drv.C04
